@@ -100,6 +100,8 @@ ELEMS = [
     "<div>x</div>", '<span class="admonition">y</span>', "a <b>c</b> d", "<!-- c -->", '<div class="admonition">\n<p>t</p>', '<div class="x">',
     "<?php x ?>", "<p>x</p>", "<table><tr><td>*a*</td></tr></table>", '<div class="admonition"', "<img", "text before <i>x</i>", "<b>bold</b> text after",
     '<video src="a.png"></video>', "<IMG2 src=a>", "x <style> y", "x <script>alert(1) y", "x <textarea y", "x <b", "<div class='admonitions'>\n<p>q</p>\n</div>", "&amp; <br> &#38;",
+    # an end tag that closes an ancestor while an inner element is still open: what follows is a top-level sibling again
+    '<div class="admonition">\n<p>a <b>x</p>\n</div>\n<span>tail</span>', '<div class="admonition">\n<ul><li>a</ul>\n</div>\n<p>after</p>', "<p>a <b>x</p>\n<img src=\"a.png\">",
 ]
 CONV = ['<img src="a.png">', '<img src="a.png" alt="A">', '<div class="admonition note">\n<p class="title">T</p>\n<p>body</p>\n</div>']
 
@@ -188,22 +190,28 @@ class _Top(HTMLParser):
 
     def __init__(self):
         super().__init__(convert_charrefs=False)
-        self.depth = 0
+        self.stack = []
         self.top = []
+
+    @property
+    def depth(self):
+        return len(self.stack)
 
     def handle_starttag(self, t, a):
         if self.depth == 0:
             self.top.append((t, dict(a)))
         if t not in self.VOID:
-            self.depth += 1
+            self.stack.append(t)
 
     def handle_startendtag(self, t, a):
         if self.depth == 0:
             self.top.append((t, dict(a)))
 
     def handle_endtag(self, t):
-        if t not in self.VOID and self.depth > 0:
-            self.depth -= 1
+        # an end tag closes the nearest open element of that name together with everything opened inside it; a stray end tag closes nothing
+        if t in self.stack:
+            while self.stack.pop() != t:
+                pass
 
     def handle_data(self, d):
         if self.depth == 0 and d.strip():
@@ -357,7 +365,9 @@ class ImageSystem(System):
 
 TITLES = [("p-title", '<p class="title">T *t*</p>', "T *t*"), ("div-title", '<div class="title">T2</div>', "T2"),
           ("p-admonition-title", '<p class="admonition-title">T3</p>', "T3"), ("none", "", "Note"),
-          ("p-title-tab", '<p class="title\tbig">T4</p>', "T4"), ("p-title-second-lf", '<p class="big\ntitle">T5</p>', "T5")]
+          ("p-title-tab", '<p class="title\tbig">T4</p>', "T4"), ("p-title-second-lf", '<p class="big\ntitle">T5</p>', "T5"),
+          # classes that merely CONTAIN the word: the element is body text, the title is the default one
+          ("p-subtitle", '<p class="subtitle">S6</p>', ("Note", "S6")), ("p-card-title", '<p class="card-title untitled">S7</p>', ("Note", "S7"))]
 BODIES = [([], ""), (["body *em* `c`"], "body *em* `c`\n"), (["one", "two **s**"], "one\n\ntwo **s**\n"),
           (["- a\n- b"], "- a\n- b\n"), (["[l](u) $x$ {#id}"], "[l](u) $x$ {#id}\n"),
           # explicitly closed EMPTY elements inside the body are written back as they were
@@ -387,6 +397,10 @@ class AdmonitionSystem(System):
         t, b, a, cname = case
         _, thtml, ttext = TITLES[t]
         paras, bodymd = BODIES[b]
+        lead = None
+        if isinstance(ttext, tuple):  # not a title: its text leads the body
+            ttext, lead = ttext
+            bodymd = lead + "\n\n" + bodymd
         cls, extra = ADM_ATTRS[a]
         attrs = f'class="admonition{cls}"' + "".join(f' {k}="{v}"' for k, v in extra)
         html = f"<div {attrs}>\n" + (thtml + "\n" if thtml else "") + "".join(f"<p>{p}</p>\n" for p in paras) + "</div>\n"
@@ -396,7 +410,7 @@ class AdmonitionSystem(System):
         A, wa = render(CTXS[cname](html), cfg)
         B, wb = render(CTXS[cname](dirv), cfg)
         viol = []
-        if b == 0:
+        if b == 0 and lead is None:
             # no body: the admonition directive itself refuses (content required); both spellings must report, nothing more is compared
             if not (list(A.findall(nodes.system_message)) and list(B.findall(nodes.system_message))):
                 viol.append(violation("equivalence", {"clause": "equivalence-admonition", "title": TITLES[t][0], "body": b},
